@@ -22,6 +22,8 @@ Walk(c, i, mode, rows, rawEvals, acc) ==
                   \cup (IF s.sc > rows /\ ~(s.a = "eval" /\ mode = "raw")
                         THEN {"training-data-grew-outside-a-real-system-evaluation"} ELSE {})
                   \cup (IF s.a = "init" /\ mode = "model" THEN {"initialize-effective-in-model-mode"} ELSE {})
+                  \cup (IF s.a = "eval" /\ mode = "raw" /\ s.has_fresh = 1 /\ ~FSame(s.v, s.fresh)
+                        THEN {"real-system-value-differs-from-fresh-objective-on-pristine-system"} ELSE {})
                   \cup (IF s.a = "eval" /\ ~(FInClosed(s.v, FZero, F1e100) \/ FSame(s.v, F1e200))
                         THEN {"value-not-in-[0,1e100]-or-1e200"} ELSE {})
        IN Walk(c, i + 1, nmode, s.sc, rawEvals + (IF s.a = "eval" /\ mode = "raw" THEN 1 ELSE 0), acc \cup bad)
